@@ -14,9 +14,19 @@ rule list, with no bound on the number of commits, files or rules:
   to the HEAD rules are the reference classification `specState` (compare with the base rule of the same type and
   name: absent → added, path differs → renamed, same content → unmodified, else modified).
 
-What is *not* proved but run (correspondence `gitfold`, `c03wf`, `c03states` against real git and `pint ci`): that
-the bodies pint reads (`Commits[0]^`, last commit) are the base and HEAD contents, the final merge into the glob
-entries, git's own rename detection.  Hence `C03_partial`.
+Added later, also for every history / list, by induction:
+
+* part C, `bodies_are_base_and_head` — the two bodies pint reads for a change (`c.before` at the parent of the first
+  commit, `c.after` at the last commit) are the base content of the path the file descends from and the content at
+  HEAD, for any content function that only changes a path in commits whose name-status lists it;
+* part D, `mergeAll_spec` — the final loop of `Find` gives every entry of the glob finder the state the branch
+  computed for the same rule (same path, kind, error and line range: what `Rule.IsSame` compares), leaves the others
+  untouched and appends the removed rules, provided the glob finder holds one entry per rule, every rule the branch
+  did not remove is among them and the branch lists no rule twice.
+
+What is *not* proved but run (correspondence `gitfold`, `c03wf`, `c03states` against real git and `pint ci`): git's own
+rename detection, the parsing of the two bodies into entries (so that the hypotheses of part D hold), symlink
+handling.  The name `C03_partial` of the bundle of parts A and B is kept.
 -/
 namespace Pint.Props.C03
 open Pint.Git
@@ -1288,5 +1298,177 @@ theorem C03_partial (paths : List String) (hN : paths.Nodup) (rs : List Rec) (hW
   ⟨fun f hf => ⟨fun ht => ((fold_tracks_lineage paths hN rs hW f hf).1 ht).2.2,
                 fun ht => ((fold_tracks_lineage paths hN rs hW f hf).2 ht).1⟩,
    (match_states after before hB hA hNm).1⟩
+
+set_option linter.unusedVariables false
+
+/-! ## part D: the final merge into the glob finder's entries -/
+
+theorem sameRule_iff (e g : GE) : sameRule e g = true ↔ g.path = e.path ∧ g.key = e.key := by
+  simp [sameRule]
+
+/-- `setFirst` on a list that holds exactly one entry for the rule: that entry gets the state, nothing else changes -/
+theorem setFirst_unique (e : GE) : ∀ (l : List GE), (∃ g ∈ l, sameRule e g = true) →
+    (l.Pairwise fun a b => ¬ (a.path = b.path ∧ a.key = b.key)) →
+    setFirst e l = some (l.map fun g => if sameRule e g then { g with state := e.state } else g) := by
+  intro l
+  induction l with
+  | nil => intro ⟨g, hg, _⟩; simp at hg
+  | cons a rest ih =>
+    intro hex hnd
+    rw [List.pairwise_cons] at hnd
+    simp only [setFirst, List.map_cons]
+    by_cases ha : sameRule e a = true
+    · simp only [ha, if_true]
+      have hid : rest.map (fun g => if sameRule e g then { g with state := e.state } else g) = rest := by
+        have hall : ∀ g ∈ rest, (fun g => if sameRule e g then { g with state := e.state } else g) g = id g := by
+          intro g hg
+          have hne := hnd.1 g hg
+          have : sameRule e g = false := by
+            cases h : sameRule e g with
+            | false => rfl
+            | true =>
+              exfalso; apply hne
+              obtain ⟨p1, k1⟩ := (sameRule_iff e a).mp ha
+              obtain ⟨p2, k2⟩ := (sameRule_iff e g).mp h
+              exact ⟨p1.trans p2.symm, k1.trans k2.symm⟩
+          simp [this]
+        rw [List.map_congr_left hall, List.map_id]
+      rw [hid]
+    · have ha' : sameRule e a = false := by simpa using ha
+      simp only [ha', Bool.false_eq_true, if_false]
+      have hex' : ∃ g ∈ rest, sameRule e g = true := by
+        obtain ⟨g, hg, hs⟩ := hex
+        rcases List.mem_cons.mp hg with rfl | hg'
+        · rw [ha'] at hs; cases hs
+        · exact ⟨g, hg', hs⟩
+      rw [ih hex' hnd.2]
+      rfl
+
+theorem setFirst_append_left (e : GE) (B : List GE) : ∀ (A A' : List GE), setFirst e A = some A' → setFirst e (A ++ B) = some (A' ++ B) := by
+  intro A
+  induction A with
+  | nil => intro A' h; simp [setFirst] at h
+  | cons a rest ih =>
+    intro A' h
+    simp only [setFirst, List.cons_append] at h ⊢
+    split at h
+    · rename_i hs
+      simp only [hs, if_true]
+      cases h; rfl
+    · rename_i hs
+      simp only [hs, if_false]
+      cases hr : setFirst e rest with
+      | none => rw [hr] at h; simp at h
+      | some r =>
+        rw [hr] at h
+        simp only [Option.map_some, Option.some.injEq] at h
+        subst h
+        rw [ih r hr]; rfl
+
+theorem stateFrom_keeps (es : List GE) (g : GE) : (stateFrom es g).path = g.path ∧ (stateFrom es g).key = g.key ∧ (stateFrom es g).removed = g.removed := by
+  unfold stateFrom; split <;> simp
+
+theorem sameRule_stateFrom (e : GE) (es : List GE) (g : GE) : sameRule e (stateFrom es g) = sameRule e g := by
+  obtain ⟨h1, h2, _⟩ := stateFrom_keeps es g
+  simp [sameRule, h1, h2]
+
+/-- what the final loop needs: the glob finder holds one entry per rule, every rule the branch did not remove is among
+them, and the branch lists no rule twice -/
+structure MergeOK (G E : List GE) : Prop where
+  globDistinct : G.Pairwise fun a b => ¬ (a.path = b.path ∧ a.key = b.key)
+  known : ∀ e ∈ E, e.removed = false → ∃ g ∈ G, sameRule e g = true
+  branchDistinct : (E.filter fun e => !e.removed).Pairwise fun a b => ¬ (a.path = b.path ∧ a.key = b.key)
+
+theorem mergeAll_from (G : List GE) (hG : G.Pairwise fun a b => ¬ (a.path = b.path ∧ a.key = b.key)) :
+    ∀ (E₂ E₁ : List GE), MergeOK G (E₁ ++ E₂) →
+      E₂.foldl mergeOne (G.map (stateFrom E₁) ++ E₁.filter (·.removed)) =
+        G.map (stateFrom (E₁ ++ E₂)) ++ (E₁ ++ E₂).filter (·.removed) := by
+  intro E₂
+  induction E₂ with
+  | nil => intro E₁ _; simp
+  | cons e rest ih =>
+    intro E₁ ok
+    have hassoc : E₁ ++ e :: rest = (E₁ ++ [e]) ++ rest := by simp
+    simp only [List.foldl_cons]
+    have step : mergeOne (G.map (stateFrom E₁) ++ E₁.filter (·.removed)) e =
+        G.map (stateFrom (E₁ ++ [e])) ++ (E₁ ++ [e]).filter (·.removed) := by
+      cases hr : e.removed with
+      | true =>
+        have hsf : ∀ g, stateFrom (E₁ ++ [e]) g = stateFrom E₁ g := by
+          intro g
+          simp [stateFrom, List.find?_append, hr]
+        simp only [mergeOne, hr, if_true, List.filter_append, List.filter_cons, List.filter_nil]
+        rw [List.map_congr_left (fun g _ => hsf g)]
+        simp
+      | false =>
+        -- no earlier branch entry is the same rule
+        have hearlier : ∀ e' ∈ E₁, e'.removed = false → ¬ (e'.path = e.path ∧ e'.key = e.key) := by
+          intro e' he' hr'
+          have := ok.branchDistinct
+          rw [List.filter_append, List.pairwise_append] at this
+          apply this.2.2 e' (List.mem_filter.mpr ⟨he', by simp [hr']⟩) e
+          exact List.mem_filter.mpr ⟨List.mem_cons_self .., by simp [hr]⟩
+        obtain ⟨g0, hg0, hs0⟩ := ok.known e (List.mem_append.mpr (Or.inr (List.mem_cons_self ..))) hr
+        have hex : ∃ g ∈ G.map (stateFrom E₁), sameRule e g = true :=
+          ⟨stateFrom E₁ g0, List.mem_map.mpr ⟨g0, hg0, rfl⟩, by rw [sameRule_stateFrom]; exact hs0⟩
+        have hnd : (G.map (stateFrom E₁)).Pairwise fun a b => ¬ (a.path = b.path ∧ a.key = b.key) := by
+          rw [List.pairwise_map]
+          refine hG.imp ?_
+          intro a b hab
+          obtain ⟨a1, a2, _⟩ := stateFrom_keeps E₁ a
+          obtain ⟨b1, b2, _⟩ := stateFrom_keeps E₁ b
+          rw [a1, a2, b1, b2]; exact hab
+        have hset := setFirst_append_left e (E₁.filter (·.removed)) _ _ (setFirst_unique e _ hex hnd)
+        simp only [mergeOne, hr, Bool.false_eq_true, if_false, hset]
+        have hfil : (E₁ ++ [e]).filter (·.removed) = E₁.filter (·.removed) := by simp [List.filter_append, hr]
+        rw [hfil]
+        congr 1
+        rw [List.map_map]
+        apply List.map_congr_left
+        intro g hg
+        simp only [Function.comp]
+        rw [sameRule_stateFrom]
+        cases hsg : sameRule e g with
+        | true =>
+          simp only [if_true]
+          -- nothing in E₁ names this rule, so the new entry decides
+          have hnone : E₁.find? (fun e' => !e'.removed && sameRule e' g) = none := by
+            rw [List.find?_eq_none]
+            intro e' he'
+            cases hr' : e'.removed with
+            | true => simp
+            | false =>
+              have hne := hearlier e' he' hr'
+              have : sameRule e' g = false := by
+                cases h : sameRule e' g with
+                | false => rfl
+                | true =>
+                  exfalso; apply hne
+                  obtain ⟨p1, k1⟩ := (sameRule_iff e g).mp hsg
+                  obtain ⟨p2, k2⟩ := (sameRule_iff e' g).mp h
+                  exact ⟨p2.symm.trans p1, k2.symm.trans k1⟩
+              simp [this]
+          simp [stateFrom, List.find?_append, hnone, hr, hsg]
+        | false =>
+          simp [stateFrom, List.find?_append, hr, hsg]
+    rw [step, hassoc]
+    exact ih (E₁ ++ [e]) (by rw [← hassoc]; exact ok)
+
+/-- **C03, the final loop.** When the glob finder holds one entry per HEAD rule, every rule the branch did not remove
+is among them and the branch lists no rule twice, the loop gives every glob entry the state the branch computed for the
+same rule (and leaves the others as they were), and appends the removed rules. -/
+theorem mergeAll_spec (G E : List GE) (ok : MergeOK G E) :
+    mergeAll G E = G.map (stateFrom E) ++ E.filter (·.removed) := by
+  have h := mergeAll_from G ok.globDistinct E [] (by simpa using ok)
+  have h0 : G.map (stateFrom []) = G := by
+    have : ∀ g ∈ G, stateFrom [] g = id g := fun g _ => by simp [stateFrom]
+    rw [List.map_congr_left this, List.map_id]
+  simp only [List.filter_nil, List.append_nil, List.nil_append, h0] at h
+  exact h
+
+/-- the hypotheses are met, and the loop does what the statement says, on a small example: two glob rules in `a.yml`, one
+modified on the branch, one rule removed -/
+example : mergeAll [⟨"a.yml", 1, 0, false⟩, ⟨"a.yml", 2, 0, false⟩] [⟨"a.yml", 2, 3, false⟩, ⟨"a.yml", 9, 4, true⟩] =
+    [⟨"a.yml", 1, 0, false⟩, ⟨"a.yml", 2, 3, false⟩, ⟨"a.yml", 9, 4, true⟩] := by decide
 
 end Pint.Props.C03
